@@ -34,6 +34,8 @@ type Verifier struct {
 	preludes    map[string]string
 	Funcs       []*FuncReport
 	mutGlobals  map[*ssa.Package][]*ssa.Global
+	rpcMethods  []RPCMethod
+	rpcErr      error
 }
 
 type FuncReport struct {
